@@ -85,4 +85,160 @@ theorem gen_link_density_divisors (N : Nat) :
       omega
   · rintro (h | h) <;> subst h <;> simp
 
+
+/-! ## every constructor path yields the canonical network `ofGraph` of the graph
+
+`ofGraph d N a w ea` (Lemmas/Repr.lean) is written down directly from the graph:
+adjacency `table N (ind a)`, `n_links` / `link_density` from the number of cells
+of `a`, embedded graph `graphEdges d N (cells N a)`, weights `w` with
+`total = w.sum`, `mean = w.sum / N`.  The theorems below say that the model of
+each construction path returns exactly this record. -/
+
+/-- **dense / sparse-canonical matrix path** (`Network(adjacency=A)`), for every
+relation `a`, every weight vector and every `N ≥ 2`. -/
+theorem dense_path (d : Bool) (N : Nat) (hN : 2 ≤ N) (a : Nat → Nat → Bool) (w : List Rat)
+    (hw : w.length = N) :
+    init d (.sparse (ofDenseMat N N (ind a))) (some w) = .ok (ofGraph d N a w none) :=
+  init_dense d N hN a w hw
+
+/-- **edge-list path** (`Network(edge_list=E, n_nodes=N)`), for *every* in-range
+edge list — one orientation, both orientations, repeated entries, empty:
+the network of the relation `rel d E` the list describes. -/
+theorem edge_list_path (d : Bool) (N : Nat) (hN : 2 ≤ N) (E : List (Nat × Nat))
+    (hE : ∀ p ∈ E, p.1 < N ∧ p.2 < N) (w : List Rat) (hw : w.length = N) :
+    init d (.edges E (some N)) (some w) = .ok (ofGraph d N (rel d E) w none) :=
+  init_edges d N hN E hE w hw
+
+/-- **dense and edge-list representations agree**: any edge list describing the
+relation `a` builds the same network as the matrix of `a`. -/
+theorem dense_eq_edge_list (d : Bool) (N : Nat) (hN : 2 ≤ N) (a : Nat → Nat → Bool)
+    (E : List (Nat × Nat)) (hE : ∀ p ∈ E, p.1 < N ∧ p.2 < N)
+    (hrep : ∀ i j, i < N → j < N → a i j = rel d E i j) (w : List Rat) (hw : w.length = N) :
+    init d (.sparse (ofDenseMat N N (ind a))) (some w) = init d (.edges E (some N)) (some w) := by
+  rw [init_dense d N hN a w hw, init_edges d N hN E hE w hw, ofGraph_congr w none hrep]
+
+/-- two edge lists describing the same relation (e.g. one orientation / both
+orientations / with repetitions) build the same network -/
+theorem edge_lists_agree (d : Bool) (N : Nat) (hN : 2 ≤ N) (E E' : List (Nat × Nat))
+    (hE : ∀ p ∈ E, p.1 < N ∧ p.2 < N) (hE' : ∀ p ∈ E', p.1 < N ∧ p.2 < N)
+    (hrep : ∀ i j, i < N → j < N → rel d E i j = rel d E' i j) (w : List Rat) (hw : w.length = N) :
+    init d (.edges E (some N)) (some w) = init d (.edges E' (some N)) (some w) := by
+  rw [init_edges d N hN E hE w hw, init_edges d N hN E' hE' w hw, ofGraph_congr w none hrep]
+
+/-- **igraph path** (`Network.FromIGraph(g)`) for a simple igraph object: the
+network of the relation its edge list describes, carrying `g` itself as
+embedded graph and `g`'s edge attribute. -/
+theorem igraph_path (g : IGraph) (hN : 2 ≤ g.n) (hs : SimpleEdges g.directed g.edges)
+    (hr : ∀ p ∈ g.edges, p.1 < g.n ∧ p.2 < g.n) (hw : ∀ w, g.vw = some w → w.length = g.n) :
+    fromIGraph g = .ok { ofGraph g.directed g.n (rel g.directed g.edges) (weightsOf g.n g.vw) none
+      with graph := g.edges, eattr := g.ea } :=
+  fromIGraph_simple g hN hs hr hw
+
+/-- **save → Load** through a file format that returns what was written -/
+theorem saveLoad_ofGraph (store : IGraph → IGraph) (d : Bool) (N : Nat) (hN : 2 ≤ N)
+    (a : Nat → Nat → Bool) (hs : Simple d N a) (w : List Rat) (hw : w.length = N)
+    (ea : Option (List Rat))
+    (hstore : store (toIGraph (ofGraph d N a w ea)) = toIGraph (ofGraph d N a w ea)) :
+    saveLoad store (ofGraph d N a w ea) = .ok (ofGraph d N a w ea) := by
+  unfold saveLoad
+  rw [hstore]
+  have hg : toIGraph (ofGraph d N a w ea)
+      = ⟨N, d, graphEdges d N (cells N a), some w, ea⟩ := rfl
+  rw [hg, fromIGraph_simple _ hN (simpleEdges_graphEdges d N a)]
+  · simp only [weightsOf]
+    rw [ofGraph_congr w none (rel_graphEdges d N a hs)]
+    rfl
+  · intro p hp
+    rw [mem_graphEdges_cells] at hp
+    exact ⟨hp.1, hp.2.1⟩
+  · intro w' h
+    simp only [Option.some.injEq] at h
+    subst h; exact hw
+
+/-- **`FromIGraph`** of the embedded graph object (with node weights attached) is the identity -/
+theorem fromIGraph_toIGraph (d : Bool) (N : Nat) (hN : 2 ≤ N)
+    (a : Nat → Nat → Bool) (hs : Simple d N a) (w : List Rat) (hw : w.length = N)
+    (ea : Option (List Rat)) :
+    fromIGraph (toIGraph (ofGraph d N a w ea)) = .ok (ofGraph d N a w ea) :=
+  saveLoad_ofGraph id d N hN a hs w hw ea rfl
+
+
+/-- **copy** of a network without link attributes -/
+theorem copy_ofGraph (d : Bool) (N : Nat) (hN : 2 ≤ N) (a : Nat → Nat → Bool) (w : List Rat)
+    (hw : w.length = N) :
+    copy (ofGraph d N a w none) = .ok (ofGraph d N a w none) := by
+  unfold copy
+  rw [sparse_ofGraph]
+  have h1 : (ofGraph d N a w none).directed = d := rfl
+  have h2 : (ofGraph d N a w none).w = w := rfl
+  have h3 : (ofGraph d N a w none).eattr = none := rfl
+  rw [h1, h2, h3, init_dense d N hN a w hw]
+  rfl
+
+/-- **undirected copy** -/
+theorem undirectedCopy_ofGraph (d : Bool) (N : Nat) (hN : 2 ≤ N) (a : Nat → Nat → Bool)
+    (w : List Rat) (hw : w.length = N) (ea) :
+    undirectedCopy (ofGraph d N a w ea) = .ok (ofGraph false N (fun i j => a i j || a j i) w none) := by
+  unfold undirectedCopy
+  have h2 : (ofGraph d N a w ea).w = w := rfl
+  have h3 : (ofGraph d N a w ea).N = N := rfl
+  rw [h2, h3]
+  have : ofDenseMat N N (fun i j => max ((ofGraph d N a w ea).at i j) ((ofGraph d N a w ea).at j i))
+      = ofDenseMat N N (ind fun i j => a i j || a j i) := by
+    apply ofDenseMat_congr
+    intro i j hi hj
+    rw [ofGraph_at, ofGraph_at]
+    simp only [hi, hj, and_self, if_true, ind]
+    by_cases h1 : a i j = true <;> by_cases h2 : a j i = true <;> simp [h1, h2] <;> decide
+  rw [this, init_dense false N hN _ w hw]
+
+
+/-! ## node weights: total and mean are those of the current vector after *every* path
+
+(for every input whatsoever — no assumption on the matrix, edge list or graph) -/
+
+theorem init_fresh (d : Bool) (inp : Input) (w : Option (List Rat)) (net : Net)
+    (h : init d inp w = .ok net) : Fresh net := by
+  unfold init at h
+  obtain ⟨n1, _, h2⟩ := bind_ok h
+  exact (setWeights_fresh _ _ _ h2).1
+
+theorem geoInit_fresh (d : Bool) (inp : Input) (cl : List Rat) (t : Nat) (net : Net)
+    (h : geoInit d inp cl t = .ok net) : Fresh net := by
+  unfold geoInit at h
+  obtain ⟨n1, _, h2⟩ := bind_ok h
+  exact (setWeights_fresh _ _ _ h2).1
+
+theorem fromIGraph_fresh (g : IGraph) (net : Net) (h : fromIGraph g = .ok net) : Fresh net := by
+  unfold fromIGraph at h
+  obtain ⟨n1, h1, h2⟩ := bind_ok h
+  simp only [pure, Except.pure, Except.ok.injEq] at h2
+  subst h2
+  exact fresh_update _ _ _ (init_fresh _ _ _ _ h1)
+
+theorem saveLoad_fresh (store : IGraph → IGraph) (net net' : Net)
+    (h : saveLoad store net = .ok net') : Fresh net' :=
+  fromIGraph_fresh _ _ h
+
+theorem copy_fresh (net net' : Net) (h : copy net = .ok net') : Fresh net' := by
+  unfold copy at h
+  obtain ⟨n1, h1, h2⟩ := bind_ok h
+  have := init_fresh _ _ _ _ h1
+  split at h2 <;> (simp only [pure, Except.pure, Except.ok.injEq] at h2; subst h2; exact this)
+
+theorem undirectedCopy_fresh (net net' : Net) (h : undirectedCopy net = .ok net') : Fresh net' :=
+  init_fresh _ _ _ _ h
+
+theorem loadViaAdjacency_fresh (g : IGraph) (gw : Option (Option (List Rat))) (net : Net)
+    (h : loadViaAdjacency g gw = .ok net) : Fresh net := by
+  unfold loadViaAdjacency at h
+  obtain ⟨n0, h0, h⟩ := bind_ok h
+  obtain ⟨n1, h1, h⟩ := bind_ok h
+  obtain ⟨n2, h2, h⟩ := bind_ok h
+  simp only [pure, Except.pure, Except.ok.injEq] at h
+  subst h
+  apply fresh_update
+  exact assignWeights_fresh _ _ _ (assignWeights_fresh _ _ _ (init_fresh _ _ _ _ h0) h1) h2
+
+
 end Pyunicorn.Repr
